@@ -160,6 +160,9 @@ class ObservedBusB(_ObservedMixin, EventBus):
 BUS_CLASSES = [ObservedBus, ObservedBusB]
 
 
+RTYPES = {'ius': int | str | None, 'any': Any}
+
+
 def short(v):
     if isinstance(v, BaseEvent):
         return ['event', getattr(v, 'tag', None)]
@@ -237,6 +240,10 @@ class World:
             p = self.sc['payloads'][pl % len(self.sc['payloads'])]
             for k, v in p.items():
                 kw[k] = datetime.datetime.fromisoformat(v) if k == 'when' and isinstance(v, str) else v
+        rt = (self.sc.get('rtypes') or {}).get(str(typ))
+        if rt:
+            # a declared result type every value the harness handlers return conforms to (int index, short string, None)
+            kw['event_result_type'] = RTYPES[rt]
         e = ET[typ](tag=tag, depth=depth, event_created_at=self.base_time + datetime.timedelta(milliseconds=tag + 1), **kw)
         self.events[tag] = e
         return tag, e
